@@ -2,11 +2,11 @@
 use std::io::{self, Read};
 
 /// a blocking reader that hands out the given chunks, one per `read` call (never more than the chunk), then EOF
-pub struct Chunks { pub chunks: Vec<Vec<u8>>, pub i: usize }
-impl Chunks { pub fn new(c: &[&[u8]]) -> Self { Chunks { chunks: c.iter().map(|x| x.to_vec()).collect(), i: 0 } } }
+pub struct Chunks { pub chunks: Vec<Vec<u8>>, pub i: usize, pub eof_reads: usize }
+impl Chunks { pub fn new(c: &[&[u8]]) -> Self { Chunks { chunks: c.iter().map(|x| x.to_vec()).collect(), i: 0, eof_reads: 0 } } }
 impl Read for Chunks {
     fn read(&mut self, buf: &mut [u8]) -> io::Result<usize> {
-        if self.i >= self.chunks.len() { return Ok(0); }
+        if self.i >= self.chunks.len() { self.eof_reads += 1; if self.eof_reads > 10_000 { panic!("HANG: reader asked again and again after end of stream"); } return Ok(0); }
         let c = &mut self.chunks[self.i];
         let n = c.len().min(buf.len());
         buf[..n].copy_from_slice(&c[..n]);
@@ -20,6 +20,208 @@ impl io::Write for Chunks {
     fn flush(&mut self) -> io::Result<()> { Ok(()) }
 }
 
+/// the same reader as an AsyncRead: every poll is ready and hands out at most one chunk
+impl tokio::io::AsyncRead for Chunks {
+    fn poll_read(mut self: std::pin::Pin<&mut Self>, _cx: &mut std::task::Context<'_>, buf: &mut tokio::io::ReadBuf<'_>) -> std::task::Poll<io::Result<()>> {
+        let me = &mut *self;
+        if me.i < me.chunks.len() {
+            let c = &mut me.chunks[me.i];
+            let n = c.len().min(buf.remaining());
+            buf.put_slice(&c[..n]);
+            c.drain(..n);
+            if c.is_empty() { me.i += 1; }
+        } else {
+            me.eof_reads += 1;
+            if me.eof_reads > 10_000 { panic!("HANG: reader asked again and again after end of stream"); }
+        }
+        std::task::Poll::Ready(Ok(()))
+    }
+}
+impl tokio::io::AsyncWrite for Chunks {
+    fn poll_write(self: std::pin::Pin<&mut Self>, _cx: &mut std::task::Context<'_>, b: &[u8]) -> std::task::Poll<io::Result<usize>> { std::task::Poll::Ready(Ok(b.len())) }
+    fn poll_flush(self: std::pin::Pin<&mut Self>, _cx: &mut std::task::Context<'_>) -> std::task::Poll<io::Result<()>> { std::task::Poll::Ready(Ok(())) }
+    fn poll_shutdown(self: std::pin::Pin<&mut Self>, _cx: &mut std::task::Context<'_>) -> std::task::Poll<io::Result<()>> { std::task::Poll::Ready(Ok(())) }
+}
+
 pub fn verdict(ok: bool, what: &str) -> ! {
     if ok { println!("HOLDS: {what}"); std::process::exit(0) } else { println!("FAILS: {what}"); std::process::exit(1) }
+}
+
+pub mod refparser { include!("refparser.rs"); }
+pub use refparser::*;
+
+/// outcome of connect / one receive, in a normalised textual form shared by the oracle and the real code
+#[derive(Debug, Clone, PartialEq, Eq)]
+pub enum Out { Connected(String), Resp(String), Invalid, UnexpectedEof, Closed, IoOther(String) }
+
+fn hex(b: &[u8]) -> String { b.iter().map(|x| format!("{:02x}", x)).collect() }
+fn lossy(b: &[u8]) -> String { String::from_utf8_lossy(b).into_owned() }
+
+#[derive(Default, Clone)]
+struct RFrame { fields: Vec<(Vec<u8>, Vec<u8>)>, binary: Option<Vec<u8>> }
+fn dump_frame(f: &RFrame) -> String {
+    let mut s = String::from("frame{");
+    for (k, v) in &f.fields { s.push_str(&format!("{}={};", lossy(k), lossy(v))); }
+    if let Some(b) = &f.binary { s.push_str(&format!("|bin={}", hex(b))); }
+    s.push('}'); s
+}
+enum St { Initial, InProgress(RFrame), List(RFrame, Vec<RFrame>) }
+
+/// ORACLE: the sequence of results `connect, receive, receive, ...` must produce for this byte stream (followed by EOF),
+/// computed with the Verus-verified reference parser and the fold of DESIGN §8.1. Stops at the first terminal outcome.
+pub fn ref_outcomes(stream: &[u8]) -> Vec<Out> {
+    let mut out = vec![];
+    let mut pos = match ref_greeting(stream) {
+        R::Good(v, n) => { out.push(Out::Connected(lossy(&v))); n }
+        R::Bad => { out.push(Out::Invalid); return out; }
+        R::Inc => { out.push(Out::UnexpectedEof); return out; }
+    };
+    let mut st = St::Initial;
+    loop {
+        let rest = &stream[pos..];
+        let r = if rest.is_empty() { R::Inc } else { ref_component(rest) };
+        match r {
+            R::Inc => {
+                out.push(if matches!(st, St::Initial) && rest.is_empty() { Out::Closed } else { Out::UnexpectedEof });
+                return out;
+            }
+            R::Bad => { out.push(Out::Invalid); return out; }
+            R::Good(c, used) => {
+                let line = &rest[..used];
+                pos += used;
+                let cur = |st: &mut St| -> RFrame { match std::mem::replace(st, St::Initial) { St::Initial => RFrame::default(), St::InProgress(f) => f, St::List(f, d) => { *st = St::List(RFrame::default(), d); f } } };
+                match c {
+                    RComp::Field { key, value } => {
+                        let was_list = matches!(st, St::List(..));
+                        let mut f = cur(&mut st); f.fields.push((key, value));
+                        st = if was_list { match st { St::List(_, d) => St::List(f, d), _ => unreachable!() } } else { St::InProgress(f) };
+                    }
+                    RComp::Binary { len } => {
+                        let payload = line[used - len - 1..used - 1].to_vec();
+                        let was_list = matches!(st, St::List(..));
+                        let mut f = cur(&mut st); f.binary = Some(payload);
+                        st = if was_list { match st { St::List(_, d) => St::List(f, d), _ => unreachable!() } } else { St::InProgress(f) };
+                    }
+                    RComp::EndOfFrame => {
+                        st = match st { St::Initial => St::List(RFrame::default(), vec![RFrame::default()]), St::InProgress(f) => St::List(RFrame::default(), vec![f]),
+                                        St::List(f, mut d) => { d.push(f); St::List(RFrame::default(), d) } };
+                    }
+                    RComp::EndOfResponse => {
+                        let frames = match std::mem::replace(&mut st, St::Initial) { St::Initial => vec![RFrame::default()], St::InProgress(f) => vec![f], St::List(_, d) => d };
+                        out.push(Out::Resp(format!("R[{}]", frames.iter().map(dump_frame).collect::<Vec<_>>().join(";"))));
+                    }
+                    RComp::Error { code, index, command, message } => {
+                        let frames = match std::mem::replace(&mut st, St::Initial) { St::List(_, d) => d, _ => vec![] };
+                        let mut parts: Vec<String> = frames.iter().map(dump_frame).collect();
+                        parts.push(format!("err({},{},{:?},{})", code, index, command.as_ref().map(|c| lossy(c)), lossy(&message)));
+                        out.push(Out::Resp(format!("R[{}]", parts.join(";"))));
+                    }
+                }
+            }
+        }
+    }
+}
+
+pub fn dump_response(r: &mpd_protocol::response::Response) -> String {
+    let mut parts = vec![];
+    for f in r.frames() {
+        match f {
+            Ok(fr) => {
+                let mut s = String::from("frame{");
+                for (k, v) in fr.fields() { s.push_str(&format!("{}={};", k, v)); }
+                if let Some(b) = fr.binary() { s.push_str(&format!("|bin={}", hex(b))); }
+                s.push('}'); parts.push(s);
+            }
+            Err(e) => parts.push(format!("err({},{},{:?},{})", e.code, e.command_index, e.current_command.as_ref().map(|c| c.to_string()), e.message)),
+        }
+    }
+    format!("R[{}]", parts.join(";"))
+}
+
+pub fn classify_err(e: &mpd_protocol::MpdProtocolError) -> Out {
+    match e {
+        mpd_protocol::MpdProtocolError::InvalidMessage => Out::Invalid,
+        mpd_protocol::MpdProtocolError::Io(e) if e.kind() == io::ErrorKind::UnexpectedEof => Out::UnexpectedEof,
+        mpd_protocol::MpdProtocolError::Io(e) => Out::IoOther(e.to_string()),
+    }
+}
+
+/// split `stream` at the given cut points (sorted offsets)
+pub fn segments(stream: &[u8], cuts: &[usize]) -> Vec<Vec<u8>> {
+    let mut v = vec![]; let mut a = 0;
+    for &c in cuts { let c = c.min(stream.len()); if c > a { v.push(stream[a..c].to_vec()); a = c; } }
+    if a < stream.len() { v.push(stream[a..].to_vec()); }
+    v
+}
+
+/// REAL blocking connection: connect + receive until a terminal outcome; `max` bounds the number of receive calls.
+/// A panic is reported as Err(description); a reader asked for more than `read_limit` reads reports a hang.
+pub fn real_blocking(stream: &[u8], cuts: &[usize], max: usize) -> Result<Vec<Out>, String> {
+    let segs = segments(stream, cuts);
+    let r = std::panic::catch_unwind(move || {
+        let refs: Vec<&[u8]> = segs.iter().map(|s| s.as_slice()).collect();
+        let mut out = vec![];
+        let mut c = match mpd_protocol::Connection::connect(Chunks::new(&refs)) {
+            Ok(c) => { out.push(Out::Connected(c.protocol_version().to_string())); c }
+            Err(e) => { out.push(classify_err(&e)); return out; }
+        };
+        for _ in 0..max {
+            match c.receive() {
+                Ok(Some(r)) => out.push(Out::Resp(dump_response(&r))),
+                Ok(None) => { out.push(Out::Closed); break; }
+                Err(e) => { out.push(classify_err(&e)); break; }
+            }
+        }
+        out
+    });
+    r.map_err(|e| format!("PANIC: {:?}", e.downcast_ref::<String>().cloned().or_else(|| e.downcast_ref::<&str>().map(|s| s.to_string()))))
+}
+
+/// REAL asynchronous connection over tokio_test's mock with the same segmentation
+pub fn real_async(stream: &[u8], cuts: &[usize], max: usize) -> Result<Vec<Out>, String> {
+    let segs = segments(stream, cuts);
+    let r = std::panic::catch_unwind(move || {
+        let rt = tokio::runtime::Builder::new_current_thread().enable_all().build().unwrap();
+        rt.block_on(async move {
+            let refs: Vec<&[u8]> = segs.iter().map(|s| s.as_slice()).collect();
+            let io = Chunks::new(&refs);
+            let mut out = vec![];
+            let mut c = match mpd_protocol::AsyncConnection::connect(io).await {
+                Ok(c) => { out.push(Out::Connected(c.protocol_version().to_string())); c }
+                Err(e) => { out.push(classify_err(&e)); return out; }
+            };
+            for _ in 0..max {
+                match c.receive().await {
+                    Ok(Some(r)) => out.push(Out::Resp(dump_response(&r))),
+                    Ok(None) => { out.push(Out::Closed); break; }
+                    Err(e) => { out.push(classify_err(&e)); break; }
+                }
+            }
+            out
+        })
+    });
+    r.map_err(|e| format!("PANIC: {:?}", e.downcast_ref::<String>().cloned().or_else(|| e.downcast_ref::<&str>().map(|s| s.to_string()))))
+}
+
+pub fn unhex(s: &str) -> Vec<u8> { (0..s.len() / 2).map(|i| u8::from_str_radix(&s[2 * i..2 * i + 2], 16).unwrap()).collect() }
+pub fn to_hex(b: &[u8]) -> String { hex(b) }
+
+/// which properties a deviation from the oracle speaks about
+pub fn deviation_props(stream: &[u8], expect: &[Out], got: &Result<Vec<Out>, String>, other_flavour: &Result<Vec<Out>, String>, unsegmented: &Result<Vec<Out>, String>) -> Vec<&'static str> {
+    let mut p: Vec<&'static str> = vec![];
+    match got {
+        Err(_) => p.push("C09"),
+        Ok(g) => {
+            let i = (0..expect.len().max(g.len())).find(|&i| expect.get(i) != g.get(i)).unwrap_or(0);
+            let e = expect.get(i); let r = g.get(i);
+            let is_eof = |o: Option<&Out>| matches!(o, Some(Out::Closed) | Some(Out::UnexpectedEof));
+            if i == 0 { p.push("C18"); if is_eof(e) || is_eof(r) { p.push("C10"); } }
+            else if is_eof(e) || is_eof(r) || r.is_none() { p.push("C10"); if matches!(e, Some(Out::Resp(_))) { p.push("C03"); } }
+            else if matches!(e, Some(Out::Invalid)) || matches!(r, Some(Out::Invalid)) { p.push("C09"); if matches!(e, Some(Out::Resp(_))) { p.push("C03"); } }
+            else { p.push("C03"); }
+        }
+    }
+    if unsegmented.as_ref().ok().map(|u| u.as_slice()) == Some(expect) || got != other_flavour { p.push("C02"); }
+    let _ = stream;
+    p
 }
